@@ -168,7 +168,9 @@ Definition prov6 (slot : nat) (isreq : bool) (r : option (nat * bool)) (m : im) 
   | Some (id, hp) =>
     let o := iown slot m in
     let keep := negb isreq && match jpv6 m with Some (_, o', _) => owner_eqb o o' | None => false end in
-    let pv := if keep then jpv6 m else Some (id, o, hp) in
+    (* 277708f: re-reserving the same address for the same session keeps the pool name the lease already knows *)
+    let hp' := hp || match jpv6 m with Some (id', o', hp0) => Nat.eqb id id' && owner_eqb o o' && hp0 | None => false end in
+    let pv := if keep then jpv6 m else Some (id, o, hp') in
     let m1 := mkIm (jms m) (jpv4 m) pv (jm4 m) (jm6 m) (jmq m) (jmo m) (jby4 m) in
     if isreq then handle_reply6 slot id (iemit slot IReply m1) else iemit slot IAdv m1
   | None => m              (* since d5fadd1 (handleResolvedV6): no resolved binding, no answer (the provider no longer
